@@ -33,6 +33,7 @@ type coop struct {
 	switches int
 	points   map[string]int
 	active   bool
+	onResume func(id int) // called in the resumed worker before it continues
 }
 
 // Yield is called (through MemFile.Yield, gkvlite's VerifYield and visitor
@@ -45,6 +46,9 @@ func (s *coop) Yield(point string) {
 	s.points[point]++
 	s.event <- coopEvent{id, false}
 	<-s.resume[id]
+	if s.onResume != nil {
+		s.onResume(id)
+	}
 }
 
 func (s *coop) pick(runnable []int, current int) int {
@@ -74,6 +78,9 @@ func (s *coop) run(workers []func()) {
 		i := i
 		go func() {
 			<-s.resume[i]
+			if s.onResume != nil {
+				s.onResume(i)
+			}
 			defer func() { s.event <- coopEvent{i, true} }()
 			workers[i]()
 		}()
@@ -126,6 +133,9 @@ type readRec struct {
 	seq     []kvp
 	snap    map[string][]kvp // Snapshot op: contents per collection
 	errs    string
+	api     int  // tag of the file calls this op issued (C19 under concurrency)
+	keyOnly bool // the op must not read value bytes
+	prio    int32
 }
 
 type flushRec struct {
@@ -189,6 +199,9 @@ func seqEqualsVersion(seq []kvp, items map[string]string, keys []string, withVal
 func RunSched(c Case) (*Violation, map[string]int) {
 	var v *Violation
 	opts := RunOpts{Prop: "C05", NoFinal: true}
+	if c.Cfg.Profile == "C19-sched" {
+		opts.Prop = "C19"
+	}
 	var evOut map[string]int
 	opts.After = func(w *World) { v = concurrentPhase(w, c) }
 	pre := c
@@ -196,6 +209,9 @@ func RunSched(c Case) (*Violation, map[string]int) {
 	pv, ev := Run(pre, opts)
 	evOut = ev
 	if pv != nil {
+		if c.Cfg.Profile == "C19-sched" {
+			return nil, evOut // the pre-state is judged by ./check C05 and the history checks
+		}
 		if pv.Sig != "panic" || v == nil {
 			pv.Sig = "pre-state:" + pv.Sig
 		}
@@ -233,7 +249,21 @@ func concurrentPhase(w *World, c Case) (viol *Violation) {
 		}
 	}
 
+	// value byte ranges of everything flushed before the concurrent phase (the file
+	// is append-only, so they stay valid): key-only reader ops must not read them
+	lz := newLazyState()
+	for _, du := range w.durable {
+		lz.addDurable(w.file.B, du)
+	}
+	logStart := len(w.file.Log)
+	apiOf := make([]int, 8)
+	nextAPI := 1 << 20
 	s := &coop{sched: c.Cfg.Sched}
+	s.onResume = func(id int) {
+		if id < len(apiOf) {
+			w.file.CurAPI = apiOf[id]
+		}
+	}
 	w.file.Yield = s.Yield
 	g.VerifYield = s.Yield
 	defer func() { g.VerifYield = nil; w.file.Yield = nil }()
@@ -320,7 +350,30 @@ func concurrentPhase(w *World, c Case) (viol *Violation) {
 			for _, op := range ops {
 				name, col := coll(op.C)
 				r := &readRec{worker: wi, op: op, coll: name, s: s.tick}
+				nextAPI++
+				r.api = nextAPI
+				if wi < len(apiOf) {
+					apiOf[wi] = r.api
+				}
+				w.file.CurAPI = r.api
 				switch op.K {
+				case OpGetItem: // key-only lookup
+					r.keyOnly = true
+					it, err := col.GetItem(op.Key, false)
+					if err != nil {
+						r.errs = err.Error()
+					}
+					if it != nil {
+						r.present = true
+						r.key = append([]byte(nil), it.Key...)
+						r.prio = it.Priority
+						if it.Val != nil {
+							r.val = append([]byte{}, it.Val...)
+						}
+					}
+				case OpExist:
+					r.keyOnly = true
+					r.present = col.Exist(op.Key)
 				case OpGet:
 					val, err := col.Get(op.Key)
 					if err != nil {
@@ -356,10 +409,12 @@ func concurrentPhase(w *World, c Case) (viol *Violation) {
 						return true
 					}
 					var err error
+					wv := op.N != 1 // N==1: a key-only visit
+					r.keyOnly = !wv
 					if op.Flag%2 == 0 {
-						err = col.VisitItemsAscend(op.Key, true, vis)
+						err = col.VisitItemsAscend(op.Key, wv, vis)
 					} else {
-						err = col.VisitItemsDescend(op.Key, true, vis)
+						err = col.VisitItemsDescend(op.Key, wv, vis)
 					}
 					if err != nil {
 						r.errs = err.Error()
@@ -390,6 +445,10 @@ func concurrentPhase(w *World, c Case) (viol *Violation) {
 				if op.K != OpSnap {
 					r.e = s.tick
 				}
+				if wi < len(apiOf) {
+					apiOf[wi] = 0
+				}
+				w.file.CurAPI = 0
 				reads = append(reads, r)
 			}
 		}))
@@ -402,6 +461,37 @@ func concurrentPhase(w *World, c Case) (viol *Violation) {
 		w.ev["yield_"+p] = n
 	}
 
+	if c.Cfg.Profile == "C19-sched" {
+		// C19's concurrent phase judges the read log only (everything else is C05's business)
+		fail = func(sig, f string, a ...interface{}) *Violation {
+			return &Violation{Prop: "C19", Sig: sig, OpIdx: len(c.Ops), Msg: fmt.Sprintf(f, a...)}
+		}
+		// C19 under concurrency: no key-only reader op read a value byte of the pre-state
+		byAPI := map[int]*readRec{}
+		for _, r := range reads {
+			if r.keyOnly {
+				byAPI[r.api] = r
+			}
+		}
+		if len(byAPI) > 0 && logStart <= len(w.file.Log) {
+			for _, rec := range w.file.Log[logStart:] {
+				if rec.Kind != IORead {
+					continue
+				}
+				r := byAPI[rec.API]
+				if r == nil {
+					continue
+				}
+				w.ev["keyonly_reads_checked"]++
+				if rg, hit := lz.hits(rec.Off, rec.Len); hit {
+					return fail("value-read-by-key-only-op", "reader %d %s (key-only) read file bytes [%d,%d), which intersect the value bytes [%d,%d) of a stored item",
+						r.worker, r.op.String(), rec.Off, rec.Off+int64(rec.Len), rg[0], rg[1])
+				}
+			}
+		}
+
+		return nil
+	}
 	// ---- post-hoc validation against the complete version log ----
 	if len(panics) > 0 {
 		return fail("panic", "%s", panics[0])
@@ -439,6 +529,14 @@ func concurrentPhase(w *World, c Case) (viol *Violation) {
 				val, ok := items[string(r.op.Key)]
 				return ok == r.present && (!ok || val == string(r.val))
 			})
+		case OpGetItem, OpExist:
+			v = check(r.coll, nil, r.s, r.e, fmt.Sprintf("present=%v value %s", r.present, qb(r.val)), func(items map[string]string) bool {
+				val, ok := items[string(r.op.Key)]
+				if ok != r.present {
+					return false
+				}
+				return !ok || r.val == nil || val == string(r.val)
+			})
 		case OpMin, OpMax:
 			v = check(r.coll, nil, r.s, r.e, fmt.Sprintf("%s=%s", qb(r.key), qb(r.val)), func(items map[string]string) bool {
 				ks := sortedKeysStr(items)
@@ -471,7 +569,7 @@ func concurrentPhase(w *World, c Case) (viol *Violation) {
 						keys = append([]string{k}, keys...)
 					}
 				}
-				return seqEqualsVersion(r.seq, items, keys, true)
+				return seqEqualsVersion(r.seq, items, keys, !r.keyOnly)
 			})
 		case OpSnap:
 			for _, cn := range schedColls {
@@ -489,7 +587,6 @@ func concurrentPhase(w *World, c Case) (viol *Violation) {
 		}
 	}
 	w.ev["reads_overlapping_mutation"] = overlapping
-
 	// flushes: each captured image re-opens to versions current during the flush, taken in name order
 	for fi, fr := range flushes {
 		if fr.err != nil {
@@ -599,6 +696,14 @@ func seqKV(seq []kvp) string {
 func init() {
 	replayers["C05"] = func(c Case) *Violation {
 		v, _ := RunSched(c)
+		return v
+	}
+	replayers["C19"] = func(c Case) *Violation {
+		if c.Cfg.Profile == "C19-sched" {
+			v, _ := RunSched(c)
+			return v
+		}
+		v, _ := Run(c, Specs["C19"].Opts)
 		return v
 	}
 }
